@@ -858,6 +858,12 @@ func GenModuli(LogNthRoot int, logQ, logP []int) (q, p []uint64, err error) {
 	primes := make(map[int][]uint64)
 	for bitsize, value := range primesbitlen {
 
+		// The candidates are 2^{bitsize} + k * 2^{LogNthRoot} + 1, which are
+		// congruent to 1 modulo the root order only if bitsize >= LogNthRoot.
+		if bitsize < LogNthRoot {
+			return nil, nil, fmt.Errorf("cannot GenModuli: no prime of bit-size=%d is congruent to 1 modulo 2^{LogNthRoot=%d}", bitsize, LogNthRoot)
+		}
+
 		/* #nosec G115 -- bitsize cannot be negative */
 		g := ring.NewNTTFriendlyPrimesGenerator(uint64(bitsize), uint64(1<<LogNthRoot))
 
